@@ -135,7 +135,7 @@ theorem append_pieces_spec (P alph : List Char) (hnt : Sq.isNt alph = true) (st1
         have hle : x.2 ≤ P.length := by
           simp at hmem
           rcases hmem with h | h <;> rw [h] <;> assumption
-        exact ⟨⟨Int.natCast_nonneg _, by exact_mod_cast hv⟩, by exact_mod_cast hle⟩
+        exact ⟨⟨decide_eq_true (Int.natCast_nonneg _), decide_eq_true (by exact_mod_cast hv)⟩, decide_eq_true (by exact_mod_cast hle)⟩
       have hcov : ∀ p : Int, Spec.Validate.coversI ((sortBlocks st1 [a, b]).map castBlk) p =
           Spec.Validate.coversI [((a.1 : Int), (a.2 : Int)), ((b.1 : Int), (b.2 : Int))] p := by
         intro p
@@ -158,11 +158,64 @@ theorem append_pieces_spec (P alph : List Char) (hnt : Sq.isNt alph = true) (st1
       rw [hne, hp2, hm2, htot, hwithin]
       simp only [Bool.or_self, Bool.not_false, Bool.true_and, Bool.and_true, beq_self_eq_true, List.all_eq_true,
         Bool.and_eq_true, beq_iff_eq]
-      refine ⟨⟨⟨?_, ?_⟩, ?_⟩, ?_⟩
-      · rfl
-      · omega
-      · omega
-      · intro p _
-        rw [hcov]
+      refine ⟨⟨by omega, by omega⟩, fun p _ => hcov p⟩
+
+/-! ### parent test of the multi-operand operations -/
+
+def outGrid : V Unit → GridOut
+  | .ok _ => .okWf
+  | .error (.doc _) => .refused
+  | .error (.internal _) => .internal
+
+def ruleOf : POp → PRule
+  | .fsi => .fsi
+  | .mkpar => .mkpar
+  | _ => .binary
+
+def allOps : List POp := [.fsi, .mkpar, .append, .locrel, .binary]
+
+/-- one grid point: the kinds index both tables (`kindKey`: the parents as the library sees them; `parentKinds`: the
+    plain descriptors the expected verdict is computed from) -/
+def pconsPoint (op : POp) (ks : List Nat) : Bool :=
+  match ks.mapM kindKey, ks.mapM (fun k => Spec.Validate.parentKinds[k]?) with
+  | some keys, some pds => Spec.Validate.okPcons (ruleOf op) pds (outGrid (pconsModel op keys))
+  | _, _ => false
+
+def pconsPairsCheck : Bool :=
+  allOps.all fun op => (List.range 10).all fun i => (List.range 10).all fun j => pconsPoint op [i, j]
+
+def fsiTriplesCheck : Bool :=
+  (List.range 10).all fun i => (List.range 10).all fun j => (List.range 10).all fun k => pconsPoint .fsi [i, j, k]
+
+theorem pconsPairsCheck_true : pconsPairsCheck = true := by decide +kernel
+
+theorem fsiTriplesCheck_true : fsiTriplesCheck = true := by decide +kernel
+
+/-- every operation x every ordered pair of the 10 parent kinds: the modelled parent test refuses exactly the pairs
+    whose descriptors are incompatible (and never with an internal error) -/
+theorem pcons_pairs (op : POp) (i j : Nat) (hi : i < 10) (hj : j < 10) : pconsPoint op [i, j] = true := by
+  have h := pconsPairsCheck_true
+  simp only [pconsPairsCheck, List.all_eq_true, List.mem_range] at h
+  have hop : op ∈ allOps := by cases op <;> simp [allOps]
+  exact h op hop i hi j hj
+
+/-- from_single_intervals x every ordered triple of the 10 parent kinds -/
+theorem fsi_triples (i j k : Nat) (hi : i < 10) (hj : j < 10) (hk : k < 10) : pconsPoint .fsi [i, j, k] = true := by
+  have h := fsiTriplesCheck_true
+  simp only [fsiTriplesCheck, List.all_eq_true, List.mem_range] at h
+  exact h i hi j hj k hk
+
+/-- for ANY operand list: `from_single_intervals` accepts exactly when every parent equals the first one -/
+theorem fsiParents_ok_iff (k : PKey) (rest : List PKey) :
+    fsiParents (k :: rest) = .ok () ↔ ∀ k' ∈ rest, k' = k := by
+  unfold fsiParents
+  by_cases h : (rest.all fun k' => decide (k' = k)) = true
+  · simp only [h, if_true, pure, Except.pure, true_iff]
+    simpa using h
+  · simp only [h, raise, Bool.false_eq_true, if_false]
+    constructor
+    · intro hc; cases hc
+    · intro hall
+      exact absurd (by simpa using hall) h
 
 end BioCantor.Proofs.Val
